@@ -1,6 +1,6 @@
 """C03 -- reachability and discovery follow compromise exactly.
 
-This is the induction for Inv on the real code: (i) Network.reset(arbitrary tensor) gives exactly
+This is the induction for Inv on the real code: (i) Network.reset from any Inv-state gives exactly
 the initial state; (ii) Inv and V entail Inv' after Network.perform_action for every action kind and
 target; (iii) discovery changes only through a successful subnet scan on a compromised host and
 such a scan discovers exactly the hosts of the connected subnets (state and info dictionaries).
@@ -52,10 +52,11 @@ def run(src, q):
         init = m_state.State.generate_initial_state(net)
     r.init_status = scen.read_status(w, init)
     state = init.copy()
-    r.pre = scen.symbolic_state(w, state, constrain_domain=False)
+    r.pre = scen.symbolic_state(w, state)
+    r.st = scen.zstatus(r.pre)
     if src.symbolic:
-        for a in w.addrs:
-            sx.assume(z3.And(sx.znum(r.pre[a]['acc']) >= -3, sx.znum(r.pre[a]['acc']) <= 5))
+        sx.assume(scen.inv(w, r.st))      # reset is called from reachable states
+        sx.check_feasible()
     r.pre_rows = dyn.tensor_rows(state.tensor)
     with stubs.sut():
         ns = net.reset(state)
